@@ -16,7 +16,7 @@ PANIC_CALL_SUFFIX = (
     ("panicking::unreachable_display", "panic"),
     ("panicking::panic_explicit", "panic"),
     ("rt::begin_panic", "panic"),
-    ("core::panicking::panic_display", "panic"),
+    ("std::panicking::panic_display", "panic"),
 )
 
 
